@@ -94,6 +94,15 @@ impl Acc {
         }
     }
     pub fn violation(&mut self, v: Violation) {
+        // a history the harness could not simulate on this driver: counted, listed as a cap, not a verdict
+        if v.sig.starts_with("inconclusive/") {
+            self.count("inconclusive_histories", 1);
+            let cap = v.sig.split('/').take(2).collect::<Vec<_>>().join("/");
+            if !self.caps.contains(&cap) {
+                self.caps.push(cap);
+            }
+            return;
+        }
         self.viol_count += 1;
         // keep the first few per signature; simplest-first enumeration makes them the shortest
         let same = self.viols.iter().filter(|x| x.sig == v.sig).count();
@@ -129,7 +138,11 @@ impl Acc {
         for (k, v) in o.counters {
             *self.counters.entry(k).or_insert(0) += v;
         }
-        self.caps.extend(o.caps);
+        for c in o.caps {
+            if !self.caps.contains(&c) {
+                self.caps.push(c);
+            }
+        }
         self.notes.extend(o.notes);
         self
     }
